@@ -434,7 +434,42 @@ def r053(eng, rep, wd: FuncInfo, builder: FuncInfo) -> None:
     for st in main.body:
         if isinstance(st, ast.Assign) and st.value is enc_call and isinstance(st.targets[0], ast.Tuple):
             tgt_names = [norm(x) for x in st.targets[0].elts]
-    rep.check(len(tgt_names) == 2 and sg is not None and ln is not None and norm(sg) == tgt_names[0] and norm(ln) == tgt_names[1], "R05.3", wd.file, wd.qual, "signals, length <- %s(...)" % builder.name, "this binding's own signals and byte length", "the message's signals/length are not the ones just built for this binding")
+    rec_name = None
+    for st in main.body:
+        if isinstance(st, (ast.Assign, ast.AnnAssign)) and st.value is enc_call and isinstance((st.targets[0] if isinstance(st, ast.Assign) else st.target), ast.Name):
+            rec_name = (st.targets[0] if isinstance(st, ast.Assign) else st.target).id
+    if rec_name is not None and not tgt_names and sg is not None and ln is not None:
+        # the builder returns a record (named tuple / dataclass): the message takes two different components of THIS call's result
+        def comp(e):
+            if isinstance(e, ast.Attribute) and isinstance(e.value, ast.Name) and e.value.id == rec_name:
+                return e.attr
+            if isinstance(e, ast.Subscript) and isinstance(e.value, ast.Name) and e.value.id == rec_name and isinstance(e.slice, ast.Constant):
+                return e.slice.value
+            return None
+        cs_, cl_ = comp(sg), comp(ln)
+        # which component of the record is the signal list: the returned record's construction in the builder
+        sig_field = None
+        for r_ in walk_local(builder.node):
+            if isinstance(r_, ast.Return) and isinstance(r_.value, ast.Call):
+                rk = prog.resolve_expr_symbol(builder.module, builder, r_.value.func)
+                order = prog.classes[rk[1]].field_order if rk and rk[0] == "class" and rk[1] in prog.classes else []
+                lists = {n_.func.value.id for n_ in walk_local(builder.node) if isinstance(n_, ast.Call) and isinstance(n_.func, ast.Attribute) and n_.func.attr == "append" and isinstance(n_.func.value, ast.Name)
+                         and n_.args and isinstance(n_.args[0], ast.Call) and (dotted(n_.args[0].func) or "").endswith("Signal")}
+                for i_, a_ in enumerate(r_.value.args):
+                    if isinstance(a_, ast.Name) and a_.id in lists and i_ < len(order):
+                        sig_field = (order[i_], i_)
+                for k_ in r_.value.keywords:
+                    if isinstance(k_.value, ast.Name) and k_.value.id in lists and k_.arg in order:
+                        sig_field = (k_.arg, order.index(k_.arg))
+        if cs_ is None or cl_ is None or cs_ == cl_:
+            rep.violation("R05.3", wd.file, wd.qual, "signals, length <- %s(...)" % builder.name, "the message's signals/length are not two components of the record just built for this binding")
+        elif sig_field is None:
+            rep.undecided("R05.3", wd.file, wd.qual, "signals <- %s.%s, length <- %s.%s" % (rec_name, cs_, rec_name, cl_), "which component of the builder's record holds the signal list is not recognised")
+        else:
+            rep.check(cs_ in sig_field and cl_ not in sig_field, "R05.3", wd.file, wd.qual, "signals <- %s.%s, length <- %s.%s" % (rec_name, cs_, rec_name, cl_), "this binding's own signals and byte length",
+                      "the message's signals are not the signal-list component (%s) of the record built for this binding" % sig_field[0])
+    else:
+        rep.check(len(tgt_names) == 2 and sg is not None and ln is not None and norm(sg) == tgt_names[0] and norm(ln) == tgt_names[1], "R05.3", wd.file, wd.qual, "signals, length <- %s(...)" % builder.name, "this binding's own signals and byte length", "the message's signals/length are not the ones just built for this binding")
     # filed under the bus of the same binding
     holder = None
     pm = {}
